@@ -458,3 +458,6 @@ impl<S> fmt::Debug for AssetCache<S> {
             .finish()
     }
 }
+
+#[cfg(kani)]
+include!(concat!(env!("ASSETS_MANAGER_VERIF"), "/incrate/cache.rs"));
